@@ -79,16 +79,17 @@ func (info ReportingMTAInfo) WriteTo(utf8 bool, w io.Writer) error {
 	}
 
 	if info.XSender != "" {
+		// The field is optional: better no field than no report if the
+		// sender has no ASCII form (a non-ASCII local part, e.g. after
+		// rewriting, in a message that is not SMTPUTF8).
 		sender, err := address.SelectIDNA(utf8, info.XSender)
-		if err != nil {
-			return fmt.Errorf("dsn: cannot convert X-Maddy-Sender to a suitable representation: %w", err)
-		}
-
-		sender = quoteAddr(sender)
-		if utf8 {
-			h.Add("X-Maddy-Sender", "utf-8; "+sender)
-		} else {
-			h.Add("X-Maddy-Sender", "rfc822; "+sender)
+		if err == nil {
+			sender = quoteAddr(sender)
+			if utf8 {
+				h.Add("X-Maddy-Sender", "utf-8; "+sender)
+			} else {
+				h.Add("X-Maddy-Sender", "rfc822; "+sender)
+			}
 		}
 	}
 	if info.XMessageID != "" {
